@@ -407,3 +407,55 @@ class Tree:
 
     def uses_of(self, lid):
         return [x for x in walk(self.root) if x.get("k") == "Path" and x.get("res") == "local" and x.get("lid") == lid]
+
+
+class Defs:
+    """Local definitions of one body: lid -> list of defining expressions (let initialisers, assignments,
+    for-loop iterables, match scrutinees for pattern bindings)."""
+
+    def __init__(self, body):
+        self.defs = {}
+        for x in walk(body):
+            k = x.get("k")
+            if k == "Let" and "init" in x:
+                for lid, _ in pat_bindings(x["pat"]):
+                    self.defs.setdefault(lid, []).append(x["init"])
+            elif k == "LetE":
+                for lid, _ in pat_bindings(x["pat"]):
+                    self.defs.setdefault(lid, []).append(x["init"])
+            elif k == "For":
+                for lid, _ in pat_bindings(x["pat"]):
+                    self.defs.setdefault(lid, []).append(x["iter"])
+            elif k == "Match":
+                for arm in x["arms"]:
+                    for lid, _ in pat_bindings(arm["pat"]):
+                        self.defs.setdefault(lid, []).append(x["e"])
+            elif k == "Assign":
+                rl = local_of(x["lhs"])
+                if rl:
+                    self.defs.setdefault(rl[0], []).append(x["rhs"])
+            elif k == "AssignOp":
+                rl = local_of(x["lhs"])
+                if rl:
+                    self.defs.setdefault(rl[0], []).append(x["rhs"])
+
+    def closure(self, node, limit=400):
+        """All nodes in `node` and, transitively, in the definitions of the locals it mentions."""
+        seen_l = set()
+        out = []
+        work = [node]
+        while work and len(out) < limit * 50:
+            n = work.pop()
+            for x in walk(n):
+                out.append(x)
+                if x.get("k") == "Path" and x.get("res") == "local" and x["lid"] not in seen_l:
+                    seen_l.add(x["lid"])
+                    work.extend(self.defs.get(x["lid"], []))
+        return out
+
+    def derives_from_call(self, node, name):
+        for x in self.closure(node):
+            f = callee(x)
+            if f is not None and f.get("name") == name:
+                return True
+        return False
